@@ -83,6 +83,9 @@ def extract():
     else:
         mm = re.search(r"%s struct \{([^}]*)\}" % re.escape(m.group(1)), s)
         c["default_memo_per_reading"] = bool(mm and re.search(r"\bbool\b", mm.group(1)) and re.search(r"\bstring\b", mm.group(1)))
+    # absent struct / map / slice values are filled from a map: the package-level emptyMap (handed out to
+    # map[string]any fields, F31) or a fresh one
+    c["empty_map_private"] = "value: emptyMap" not in s
     rel = "core/mapping/jsonunmarshaler.go"
     s = _read(rel)
     c["jsonTagKey"] = _str_const(s, "jsonTagKey", rel)
@@ -152,6 +155,8 @@ def regen():
         "Definition gen_required_memo_per_tag : bool := %s." % b(c["required_memo_per_tag"]),
         "(* the memo of parsed slice defaults is keyed by (read as segments / as JSON, text) *)",
         "Definition gen_default_memo_per_reading : bool := %s." % b(c["default_memo_per_reading"]),
+        "(* no package-level map is handed out as the value of a field *)",
+        "Definition gen_empty_map_private : bool := %s." % b(c["empty_map_private"]),
         "(* rest/httpx.Parse: the passes in source order; the validator comes after the last one *)",
         "Definition gen_parse_order : list string := %s." % clist([cstr(x) for x in c["parse_order"]]),
         "Definition gen_validator_after_passes : bool := %s." % b(c["validator_after_passes"]),
